@@ -499,6 +499,8 @@ impl BufferedDatabaseWriter {
 
                                 WriteMessage::ComputeDailyLog(q, r) => {
                                     let _ = r.blocking_send(DbMessage::DailyLogComputed(Ok(q)));
+                                    #[cfg(feature = "verif")]
+                                    verif_faults::start_done();
                                 }
 
                                 WriteMessage::Nodes(_, invalid_nodes, r) => {
@@ -914,6 +916,9 @@ pub mod verif_faults {
     pub const P_COMMIT: u8 = 5; // before COMMIT
     pub const P_COMMITTED: u8 = 6; // after COMMIT
     pub const P_ACK: u8 = 7; // writer thread, before the acknowledgement loop
+    pub const P_STMT: u8 = 10; // H4b: inside a statement group, between two of its statements (arm = site)
+    pub const P_START: u8 = 11; // H4b: GraphDatabaseService::start, before the start-up recompute is requested
+    pub const P_START_DONE: u8 = 12; // H4b: writer thread, the first recompute of the process (the start-up one) has been answered
     pub const T_MSG: u8 = 8; // trace only: kind of a message of the batch about to be written
     pub const T_LEN: u8 = 9; // trace only: number of statement groups of that message
 
@@ -1030,6 +1035,39 @@ pub mod verif_faults {
             return Err(injected());
         }
         Ok(())
+    }
+
+    /// H4b: between two statements of a statement group; left through `?` like the statement that follows.
+    /// If the group was armed to fail and has not executed a write statement yet, the failure is delivered here
+    pub fn stmt(conn: &Connection, site: u8) -> std::result::Result<(), rusqlite::Error> {
+        if !ARMED.load(SeqCst) {
+            return Ok(());
+        }
+        if POISONED.load(SeqCst) {
+            unpoison(conn, 1);
+            return Err(injected());
+        }
+        if hit(P_STMT, site) {
+            FIRED.store(1, SeqCst);
+            return Err(injected());
+        }
+        Ok(())
+    }
+
+    /// H4b: a point outside the writer thread (kill only)
+    pub fn start_point(point: u8) {
+        if !ARMED.load(SeqCst) {
+            return;
+        }
+        let _ = hit(point, 0);
+    }
+
+    /// H4b: the first answered recompute of the process is the one GraphDatabaseService::start requested
+    pub fn start_done() {
+        static SEEN: AtomicBool = AtomicBool::new(false);
+        if !SEEN.swap(true, SeqCst) {
+            start_point(P_START_DONE);
+        }
     }
 
     /// in front of a statement group
